@@ -152,8 +152,50 @@ def gen_timed_program(rng, N):
     return objs, threads, {"x0": expect}
 
 
-def gen_case(rng, kind=None, workers=None, pswitch=None):
+def gen_life_program(rng, modes):
+    """object lifecycle: ONE mutex object goes through len(modes)+1 incarnations.  Incarnation 0 is the `obj m0 mutex`
+    of the case (myth_mutex_init(m, NULL) on fresh memory); each later one starts, after all users of the previous
+    one have been joined (mutex free, nobody inside), with `mdestroy m0` (the memory is scribbled over) and
+    `minit m0 [attr|static]`.  In every incarnation main and 2-3 new threads contend with blocking locks (sleepers),
+    trylock and timedlock around the shared counter."""
+    objs = ["m0 mutex", "x0 var 0"]
+    threads, expect, tag = {0: []}, 0, 1
+    for inc, mode in enumerate([None] + list(modes)):
+        if mode is not None:
+            threads[0] += ["mdestroy m0", ("minit m0 " + mode).strip()]
+        users = list(range(tag, tag + rng.rng(2, 3)))
+        tag += len(users)
+        threads[0] += ["create %d" % u for u in users]
+        for u in users + [0]:
+            ops = []
+            for _ in range(rng.rng(1, 3)):
+                d = rng.rng(1, 9)
+                k = rng.below(6)
+                if k == 0:
+                    ops += ["trylock m0", "unlockif m0"]
+                elif k == 1:
+                    ops += ["timedlock m0 3000", "unlockif m0"]
+                else:
+                    ops += ["lock m0", "add x0 %d" % d] + (["yield"] if rng.chance(1, 3) else []) + ["unlock m0"]
+                    expect += d
+            if u == 0:
+                threads[0] += ops
+            else:
+                threads[u] = ops
+        threads[0] += ["join %d" % u for u in users]
+    threads[0] += ["get x0"]
+    return objs, threads, {"x0": expect}, tag
+
+
+def gen_case(rng, kind=None, workers=None, pswitch=None, modes=None):
     kind = kind or ("cond" if rng.chance(1, 4) else "mutex")
+    if kind == "life":
+        modes = modes or [rng.choice(["", "attr", "static"]) for _ in range(rng.rng(1, 2))]
+        workers = workers or rng.rng(1, 4)
+        pswitch = pswitch or rng.choice([35, 60, 85])
+        objs, threads, expect, N = gen_life_program(rng, modes)
+        text = trace.case_text(workers, rng.rng(1, 1 << 30), objs, threads, pswitch=pswitch)
+        return {"text": text, "kind": kind, "N": N, "workers": workers, "pswitch": pswitch, "expect": expect, "modes": modes}
     if kind == "hold":
         # targeted preemption: a locker that has reserved its seat is held before its enqueue (the unlocker's dequeue
         # spins), a woken sleeper is held before it re-reads the word (a fresh locker barges); contended blocking locks
@@ -301,6 +343,13 @@ def oracle(case, r):
                 return "t%d: %s returned %s" % (T, w[0], ret)
             if w and w[0] == "get" and T == 0:
                 gets[w[1]] = ret
+            if w and w[0] == "minit":
+                kv = dict(x.split("=", 1) for x in e.words[2:] if "=" in x)
+                if ret != 0 or kv.get("state") != "0" or kv.get("qn") != "0":
+                    return ("a freshly initialised mutex is not free and empty: `%s` returned %s with state word %s and %s queued "
+                            "thread(s)" % (" ".join(w), ret, kv.get("state"), kv.get("qn")))
+                inq.pop(w[1], None)
+                word[w[1]] = 0
     for var, exp in case["expect"].items():
         if gets.get(var) != exp:
             return "lost update: final %s = %s, the critical sections added %d" % (var, gets.get(var), exp)
@@ -408,10 +457,37 @@ def run_cases_robust(ctx, exe, drv, texts):
     return out
 
 
+def replay_incarnations(drv, case_text, r):
+    """lifecycle cases: the trace is cut at every `C .. minit M` line; every incarnation of the mutex is replayed
+    through the model from init_state (a fresh mutex: word 0, empty queue)"""
+    groups, nt = trace.sync_groups(case_text)
+    g = [x for x in groups if x["mutex"]][0]
+    segs, cur = [], []
+    for e in r["events"]:
+        if e.kind == "C" and e.words and e.words[0] == "minit" and e.words[1] == g["mutex"]:
+            segs.append(cur)
+            cur = []
+        cur.append(e)
+    segs.append(cur)
+    blocks = [trace.sync_block(g, nt, seg) for seg in segs]
+    res = trace.validate_blocks(drv, blocks)
+    fc = []
+    for b, x in zip(blocks, res):
+        if x.startswith("FAIL"):
+            k = int(x.split()[1])
+            fc.append({"verdict": x, "model_input_tail": b[0][max(0, k - 10):k + 1]})
+    return res, fc
+
+
 def judge(ctx, cases, exe, drv):
     results = run_cases_robust(ctx, exe, drv, [c["text"] for c in cases])
     fails, mism = [], []
     for c, r in zip(cases, results):
+        if c.get("kind") == "life" and r["events"]:
+            try:
+                r["model"], r["fail_context"] = replay_incarnations(drv, c["text"], r)
+            except Exception as ex:                      # noqa: damaged trace
+                r["model"], r["fail_context"] = ["FAIL 0 projection failed: %s" % ex], []
         msg = oracle(c, r)
         if msg:
             fails.append((c, r, msg))
@@ -433,9 +509,28 @@ def run(ctx):
     cases += [gen_case(ctx.rng, kind="timed") for _ in range(40 if not ctx.thorough else 400)]
     # `hold` sweeps: seat reserved / not yet enqueued, woken / not yet re-read
     cases += [gen_case(ctx.rng, kind="hold") for _ in range(50 if not ctx.thorough else 400)]
+    # object lifecycle: used, destroyed, re-initialised (NULL attr / initialised attr / static initialiser), used again
+    nl = 30 if not ctx.thorough else 300
+    cases += [gen_case(ctx.rng, kind="life", modes=[["attr"], [""], ["static"], ["attr", ""], ["", "attr"], ["static", "attr"]][i % 6])
+              for i in range(nl)]
     results, fails, mism = judge(ctx, cases, exe, drv)
     hist = sync_common.point_histogram(results)
     missing = [p for p in POINTS if not hist.get(p)]
+    life = {"reinit_null": 0, "reinit_attr": 0, "reinit_static": 0, "incarnations_replayed": 0, "sleeps_after_reinit": 0}
+    for c, r in zip(cases, results):
+        if c.get("kind") != "life":
+            continue
+        life["incarnations_replayed"] += sum(1 for m in r["model"] if m.startswith("ok"))
+        seen_init = False
+        for e in r["events"]:
+            if e.kind == "C" and e.words and e.words[0] == "minit":
+                seen_init = True
+                life["reinit_attr" if "attr" in e.words[2:] else "reinit_static" if "static" in e.words[2:] else "reinit_null"] += 1
+            elif seen_init and e.kind == "P" and e.words[0] == "blockq.enq":
+                life["sleeps_after_reinit"] += 1
+    for k in ("reinit_null", "reinit_attr", "reinit_static", "sleeps_after_reinit"):
+        if life[k] == 0:
+            missing.append("lifecycle:%s never exercised" % k)
     sit = {"barging": 0, "barging_try": 0, "migrated": 0, "spin": 0, "slept_calls": 0}
     for c, r in zip(cases, results):
         if c["workers"] >= 2:
@@ -473,11 +568,11 @@ def run(ctx):
         "cases": len(cases), "corpus_cases": len(corpus), "model_steps_replayed": sum(
             int(m.split()[1]) for r in results for m in r["model"] if m.startswith("ok")),
         "disagreements": len(mism), "oracle_failures": len(fails),
-        "input_distribution_kind": {k: sum(v for kk, v in dist.items() if kk.startswith(k)) for k in ("mutex", "cond", "timed", "hold")},
+        "input_distribution_kind": {k: sum(v for kk, v in dist.items() if kk.startswith(k)) for k in ("mutex", "cond", "timed", "hold", "life")},
         "input_distribution_workers": {str(w): sum(v for kk, v in dist.items() if "/w%d/" % w in kk) for w in (1, 2, 3, 4)},
         "input_distribution_pswitch": {str(p): sum(v for kk, v in dist.items() if kk.endswith("/p%d" % p)) for p in (20, 35, 60, 85)},
         "verdicts": verd, "return_values": rets, "point_histogram": {p: hist.get(p, 0) for p in POINTS},
-        "wake1.spin_events": spins, "situations_2_to_4_workers": sit, "runs_with_two_callbacks_of_one_thread": sum(1 for r in results if overlap_stats(r) >= 2)}
+        "wake1.spin_events": spins, "situations_2_to_4_workers": sit, "object_lifecycle": life, "runs_with_two_callbacks_of_one_thread": sum(1 for r in results if overlap_stats(r) >= 2)}
     ctx.cov["evaluations"] = sum(len(r["events"]) for r in results)
     ctx.cov["samples"] += [{"case": cases[i]["text"], "verdict": results[i]["verdict"], "model": results[i]["model"]}
                            for i in (0, len(cases) // 2, len(cases) - 1)]
@@ -489,7 +584,7 @@ def run(ctx):
         "(a pushed thread is simply runnable), context save/restore (C03), sequential consistency of the mutex word"]
     if fails:
         # the most telling witness first (an iteration without attempt while the mutex was free)
-        fails.sort(key=lambda f: 0 if "FREE with lockers queued" in f[2] else 1 if "= free" in f[2] else 2)
+        fails.sort(key=lambda f: 0 if ("FREE with lockers queued" in f[2] or "freshly initialised" in f[2]) else 1 if "= free" in f[2] else 2)
         c, r, msg = fails[0]
         ctx.violation("oracle", msg, {"case": c, "observed": {"verdict": r["verdict"], "model": r["model"], "trace": r["trace_path"]},
                                       "expected": "property C04 (see oracle() in tools/props/c04.py)", "level": "library",
